@@ -99,7 +99,7 @@ func gDefObs(o *DefObs) string {
 		}
 		as[i] = "(" + gS(a.Name) + ", " + gKind(a.Kind) + ", " + a.Ty.Gallina() + ", " + v + ")"
 	}
-	return "(DAcc " + lib.GList(as, "str * kind * ty * option value") + " " + lib.GNat(o.Req) + " " + gStrs(o.Eq) + ")"
+	return "(DAcc " + lib.GList(as, "str * kind * ty * option value") + " " + lib.GNat(o.Req) + " " + gStrs(o.Eq) + " " + o.Init.Gallina() + ")"
 }
 
 func gGetObs(g *GetObs) string {
